@@ -584,3 +584,47 @@ def run(ctx):
         _run_pre_awp(ctx)
     finally:
         _asset_weight_paths(ctx)
+
+
+# ---------------------------------------------------------------- R7 the engine sees every active position
+def _loader_scans_everything(ctx):
+    """The risk engine's view of the account is built by one loader.  Its iterator chain must deliver *every* active balance: the only
+    element-dropping adaptor is `filter(is_active)` (or an explicit loop that skips inactive slots and is never left early).  A chain
+    that can stop before the end (take_while / take / skip / step_by / find / position ...) lets an inactive slot in front of a debt
+    hide that debt - a layout that arises after a position was closed and before the account is re-sorted."""
+    prog = ctx.prog
+    fs = prog.find_fns({"name": "load", "self_adt": "BankAccountWithPriceFeed"})
+    if len(fs) != 1:
+        ctx.missing("C04.R7", "BankAccountWithPriceFeed::load")
+        return
+    f = fs[0]
+    from .common import _local_tree
+    tr = _local_tree(prog, f, 0, [], 0, frozenset(), 1)
+    TRUNC = ("take_while", "take", "skip", "skip_while", "step_by", "find", "position", "rposition", "nth", "last", "next", "peekable", "chain", "zip", "rev", "map_while", "scan", "fuse")
+    names = set(re.findall(r"([A-Za-z_]\w*)\(", tr.split("closure{")[0]))
+    chain_ok = "collect" in names and "iter(p1.balances)" in tr and not (names & set(TRUNC))
+    filt = re.findall(r"filter\(iter\(p1\.balances\),closure\{([^{}]*)\}\)", tr)
+    ok = chain_ok and len(filt) == 1 and filt[0] == "is_active(a2)"
+    found = "ok (iter -> filter(is_active) -> map -> collect)"
+    if not ok:
+        # explicit loop form: a `next` loop over the balances that is left only when exhausted / on error, with an is_active skip
+        loops = [c for c in f.calls() if c.callee and c.callee["name"] == "next" and re.search(r"iter\(p1\.balances\)", expr_tree(prog, f, c.args[0]))
+                 and not re.search(r"\b(%s)\(" % "|".join(TRUNC), expr_tree(prog, f, c.args[0]))]
+        loops = [c for c in loops if any(c.block in f.reachable(start=b) for b in f.succ()[c.block])]
+        bad = [x for c in loops for x in loop_early_exits(prog, f, c.block)]
+        if len(loops) == 1 and not bad:
+            ok, found = True, "ok (explicit loop over every slot)"
+        else:
+            found = "iterator chain: %s" % tr[:200]
+    ctx.inst("C04.R7", "loader/every-active-balance", ok, "the risk engine's loader delivers every active balance of the account: the only dropped slots are the inactive ones, and the scan cannot stop early",
+             found, f.loc(f.raw["span"]))
+
+
+_run_pre_loader = run
+
+
+def run(ctx):
+    try:
+        _run_pre_loader(ctx)
+    finally:
+        _loader_scans_everything(ctx)
